@@ -3,6 +3,7 @@ package node
 import (
 	"fmt"
 
+	"github.com/freeconf/yang/fc"
 	"github.com/freeconf/yang/meta"
 	"github.com/freeconf/yang/val"
 	"github.com/freeconf/yang/xpath"
@@ -83,13 +84,20 @@ func (xp xpathImpl) resolveOperator(oper *xpath.Operator, ident string, s *Selec
 	if m == nil {
 		return false, fmt.Errorf("'%s' not found in xpath", ident)
 	}
-	b, err := NewValue(m.(meta.HasType).Type(), oper.Lhs)
+	leaf, isLeaf := m.(meta.HasType)
+	if !isLeaf {
+		return false, fmt.Errorf("%w. '%s' is not a leaf and cannot be compared in xpath", fc.BadRequestError, ident)
+	}
+	b, err := NewValue(leaf.Type(), oper.Lhs)
 	if err != nil {
 		return false, err
 	}
 	s, err = s.Find(ident)
 	if err != nil {
 		return false, err
+	}
+	if s == nil {
+		return false, nil
 	}
 	a, err := s.Get()
 	if err != nil {
@@ -105,7 +113,12 @@ func (xp xpathImpl) resolveOperator(oper *xpath.Operator, ident string, s *Selec
 	case "!=":
 		return !val.Equal(a, b), nil
 	default:
-		c := a.(val.Comparable).Compare(b.(val.Comparable))
+		ca, aCanCompare := a.(val.Comparable)
+		cb, bCanCompare := b.(val.Comparable)
+		if !aCanCompare || !bCanCompare {
+			return false, fmt.Errorf("%w. '%s' of type %s has no order to compare by in xpath", fc.BadRequestError, ident, a.Format())
+		}
+		c := ca.Compare(cb)
 		switch oper.Oper {
 		case "<":
 			return c < 0, nil
